@@ -57,6 +57,8 @@ def make_family():
     m["solo"] = {"excludes": "_"}
     m["left"] = {"excludes": "left right"}       # mutual exclusion between two distinct types
     m["right"] = {"excludes": "left right", "attrs": {"n": {"default": 0}}}
+    m["lock"] = {"excludes": "big"}              # blocks `big` without being excluded by it (asymmetric)
+    n["note"] = {"content": "inline*", "group": "block", "marks": "small1 small2 em lock"}   # allows small1 but not big
     out.append(SchemaInfo(Schema({"nodes": n, "marks": m}), "marks-x"))
     return out
 
@@ -151,8 +153,9 @@ def random_spec(rng):
             spec["marks"] = me
         if rng.random() < 0.2:
             spec["code"] = True
-        if rng.random() < 0.25:
-            spec["attrs"] = {"lvl": {"default": 1}}
+        if rng.random() < 0.3:
+            # sometimes a *required* attribute: the type cannot be generated by fill_before / create_and_fill
+            spec["attrs"] = {"lvl": {"default": 1}} if rng.random() < 0.6 else {"lvl": {}}
         if rng.random() < 0.3:
             spec["defining"] = True
         order.append((name, spec))
@@ -185,8 +188,8 @@ def random_spec(rng):
             spec["isolating"] = True
         if rng.random() < 0.3:
             spec["defining"] = True
-        if rng.random() < 0.15:
-            spec["attrs"] = {"n": {"default": None}}
+        if rng.random() < 0.2:
+            spec["attrs"] = {"n": {"default": None}} if rng.random() < 0.6 else {"n": {}}
         me = mark_expr()
         if me is not None and rng.random() < 0.3:
             spec["marks"] = me
@@ -210,24 +213,15 @@ def random_spec(rng):
 
 
 def well_founded(schema):
-    import sys
-    lim = sys.getrecursionlimit()
-    sys.setrecursionlimit(400)
-    try:
-        for t in schema.nodes.values():
-            if t.is_text or t.has_required_attrs():
-                continue
-            try:
-                n = t.create_and_fill()
-            except RecursionError:
-                return False
-            except Exception:  # noqa: BLE001
-                return False
-            if n is None:
-                return False
-        return True
-    finally:
-        sys.setrecursionlimit(lim)
+    """every generatable type can be filled to a valid node in bounded depth — decided by the harness's own search
+    (gen._filler), not by the library's create_and_fill, which is code under test"""
+    from .gen import _filler
+    for t in schema.nodes.values():
+        if t.is_text or t.has_required_attrs() or t.is_leaf:
+            continue
+        if _filler(t.content_match) is None:
+            return False
+    return True
 
 
 def random_schema(rng, rejected=None, tries=50):
@@ -243,3 +237,34 @@ def random_schema(rng, rejected=None, tries=50):
             continue
         return SchemaInfo(s, "random")
     return family()[1]
+
+
+def layered_schema(rng):
+    """schemas made of layers of alternative wrappers, some of which can hold the next layer as their only child and some
+    of which need a sibling next to it: wrapper searches must reconsider a type in every context (C15)"""
+    levels = rng.randint(2, 3)
+    nodes = {"doc": {"content": "g0+" if rng.random() < 0.7 else "(w0a | w0b)+ extra?"}}
+    for i in range(levels):
+        nxt = "g%d" % (i + 1) if i + 1 < levels else "item"
+        for v in "ab":
+            r = rng.random()
+            if r < 0.45:
+                c = nxt + rng.choice(["", "+", "*"])
+            elif r < 0.7:
+                c = nxt + " extra"
+            elif r < 0.85:
+                c = "extra " + nxt
+            else:
+                c = nxt + "{2}"
+            nodes["w%d%s" % (i, v)] = {"content": c, "group": "g%d" % i}
+    nodes["item"] = {"content": "text*", "group": "item"}
+    nodes["extra"] = {"content": "text*"}
+    nodes["text"] = {}
+    keys = list(nodes.keys())
+    body = keys[1:-1]
+    rng.shuffle(body)
+    spec = {"nodes": {k: nodes[k] for k in ["doc"] + body + ["text"]}, "marks": {}}
+    try:
+        return SchemaInfo(Schema(copy.deepcopy(spec)), "random")
+    except Exception:  # noqa: BLE001
+        return None
